@@ -77,6 +77,7 @@ DEFAULT_PROFILE: Dict[str, Any] = {
     'imports_last': False,    # every module defines first and imports at the bottom (so a module that is read while half built
                               # - import cycles - has already defined everything it defines itself)
     'back_edge_bottom': False,  # cyclic worlds: the imports that close a cycle sit at the bottom of the module, after every definition
+    'hide_overrides': 0.0,    # probability per class with an overriding member of a privacy rule hiding that member (or the class)
     'docassign_modules': False,  # __doc__ assignments may also target a module through its alias
     'submodule_clash': 0.0,   # probability that a package __init__ defines a function named like a sub-module nothing imports
     'private_defs': 0.0,      # probability that a module-level definition has a _private name
@@ -811,8 +812,15 @@ class _Gen:
                 expr, tid, r = rng.choice(targets)
                 self.docassigned.add(tid)
                 # (a negative id stands for a module, which has no entry in defs)
+                text = f'Marker M{abs(tid)}M. Reassigned from {mod}.'
+                if tid < 0:
+                    # docstring fields on both texts: variables that exist only through an @var field of the module docstring
+                    tmod = next(mn for mn, mm in self.modules.items() if mm['mid'] == -tid)
+                    self.modules[tmod]['docextra'] = (self.modules[tmod].get('docextra') or '') + \
+                        f'\n\n@var gv{-tid}: A variable that only the docstring literal documents.\n'
+                    text += f'\n\n@var ga{-tid}: A variable that only the assigned text documents.\n'
                 body.append({'k': 'docassign', 'target': {'expr': expr, 'id': tid if tid > 0 else None, 'route': r, 'module_id': -tid if tid < 0 else None},
-                             'text': f'Marker M{abs(tid)}M. Reassigned from {mod}.'})
+                             'text': text})
                 self.exotic.add('docassign')
         # alias of a method at module level (may then be re-exported by someone else)
         if rng.chance(p['method_alias_reexport']):
@@ -1146,7 +1154,32 @@ def canonical_order(modules: Dict[str, Any]) -> List[str]:
 
 
 def gen_world(rng: Rng, prof: Optional[Dict[str, Any]] = None) -> Dict[str, Any]:
-    return _Gen(rng, prof or dict(DEFAULT_PROFILE)).generate()
+    g = _Gen(rng, prof or dict(DEFAULT_PROFILE))
+    world = g.generate()
+    if g.p.get('hide_overrides', 0):
+        # privacy rules that hide a member which overrides an inherited one (or its whole class): what the run is
+        # configured with is part of the world
+        r = rng.sub('hide-overrides')
+        defs = g.defs
+        rules: List[List[str]] = []
+        hidden: List[int] = []
+        for cid in sorted(k for k, d in defs.items() if d['kind'] == 'class'):
+            d = defs[cid]
+            anc = g.ancestors(cid)
+            over = sorted(n for n in d.get('members', {}) if any(n in defs[a].get('members', {}) for a in anc))
+            if not over or not r.sub(cid).chance(g.p['hide_overrides']):
+                continue
+            if r.sub(cid).sub('whole').chance(0.3):
+                rules.append(['HIDDEN', f'**.{d["name"]}'])
+                hidden.append(cid)
+            else:
+                n = r.sub(cid).sub('which').choice(over)
+                rules.append(['HIDDEN', f'**.{d["name"]}.{n}'])
+                hidden.append(d['members'][n])
+        if rules:
+            world['privacy'] = rules
+            world['hidden_members'] = hidden
+    return world
 
 
 # --------------------------------------------------------------------------
